@@ -15,7 +15,8 @@ Alphabet == {"[", "]", "|", "a", "b", " ", "LF", "CR", "/", "NBSP"}
 LinePool == { <<"[","a","]">>, <<"[","b","]">>, <<" ","[","a"," ","b","]"," ">>, <<"[","]">>, <<"[","a","|","b","]">>,
               <<"a">>, <<"b">>, <<"a","|","b">>, <<" ","a"," ","|","NBSP","b","TAB">>, <<"a","|">>, <<"|">>,
               <<"E2","a">>, <<"b"," ","/","/"," ","[","a","]">>, <<"/","/","a">>, <<>>, <<"TSP","[","b","]">>,
-              <<"a","/","b">>, <<"[","a","]","/","/","x">> }
+              <<"a","/","b">>, <<"[","a","]","/","/","x">>,
+              <<"A">>, <<"A","|","B">> }        \* names that differ from others only in case are different names
 Endings  == { <<"LF">>, <<"CR","LF">> }
 
 MCInit == input = <<>> /\ ln = 0 /\ st = InitSt /\ w = [mode |-> "none", n |-> 0]
